@@ -73,22 +73,42 @@ class _Recorder:
 
 
 class recording:
-    def __enter__(self):
-        import spatialpandas.io.parquet as m
-        self.m = m
-        _Recorder.real = m.ParquetDataset
-        m.ParquetDataset = _Recorder
-        self.dd = m.dd_read_parquet
+    """OPTIONAL extra (an internal of the implementation, not behaviour the property talks about):
+    when spatialpandas.io.parquet happens to hold the names ParquetDataset / dd_read_parquet they are
+    wrapped to record the columns handed to pyarrow / Dask; a difference from Model/ParquetCols.v is
+    counted, never reported.  When the names are not there the extra is skipped and counted."""
+    rep = None
 
-        def dd_rec(path, columns=None, **k):
-            DD_LOG.append(None if columns is None else list(columns))
-            return self.dd(path, columns=columns, **k)
-        m.dd_read_parquet = dd_rec
+    def __enter__(self):
+        self.hooked = []
+        try:
+            import spatialpandas.io.parquet as m
+        except Exception:
+            m = None
+        self.m = m
+        if m is not None and isinstance(getattr(m, 'ParquetDataset', None), type):
+            _Recorder.real = m.ParquetDataset
+            m.ParquetDataset = _Recorder
+            self.hooked.append('ParquetDataset')
+        elif recording.rep is not None:
+            recording.rep.count('internal-unavailable:parquet.ParquetDataset')
+        if m is not None and callable(getattr(m, 'dd_read_parquet', None)):
+            self.dd = m.dd_read_parquet
+
+            def dd_rec(path, columns=None, **k):
+                DD_LOG.append(None if columns is None else list(columns))
+                return self.dd(path, columns=columns, **k)
+            m.dd_read_parquet = dd_rec
+            self.hooked.append('dd_read_parquet')
+        elif recording.rep is not None:
+            recording.rep.count('internal-unavailable:parquet.dd_read_parquet')
         return self
 
     def __exit__(self, *a):
-        self.m.ParquetDataset = _Recorder.real
-        self.m.dd_read_parquet = self.dd
+        if 'ParquetDataset' in self.hooked:
+            self.m.ParquetDataset = _Recorder.real
+        if 'dd_read_parquet' in self.hooked:
+            self.m.dd_read_parquet = self.dd
 
 
 def md_terms(md):
@@ -167,7 +187,8 @@ def compare_frames(rep, acc, exp, got, proj, meta, want_type):
     def bad(sig, what, **kw):
         rep.violation(f'{sig}:{path}', what, {**meta, **kw})
 
-    if type(got).__name__ != want_type:
+    from spatialpandas import GeoDataFrame
+    if not isinstance(got, GeoDataFrame):
         bad('result-type', f'result is {type(got).__name__}, expected {want_type}')
     idx_names = index_level_names(exp)
     if proj is None:
@@ -202,8 +223,10 @@ def compare_frames(rep, acc, exp, got, proj, meta, want_type):
                     column=c, position=k)
                 continue
             # decode of the exported buffers, evaluated by the model
-            kind = type(e.dtype)._geometry_name
+            kind = U.kind_of_dtype(e.dtype)
             try:
+                if kind is None or not hasattr(ea, 'data'):
+                    raise AttributeError
                 if kind == 'point':
                     acc.fa[0].append((C.export_fixarr(ea), C.export_fixarr(ga)))
                     acc.fa[1].append(True)
@@ -214,6 +237,8 @@ def compare_frames(rep, acc, exp, got, proj, meta, want_type):
                     acc.la[2].append({**meta, 'column': c})
             except ValueError:
                 rep.count('decode_skipped_null_typed')
+            except AttributeError:
+                rep.count('internal-unavailable:array-buffers')
         else:
             if not same_values(e, g):
                 bad('values', f'column {c}: values differ', column=c)
@@ -337,7 +362,8 @@ def dask_roundtrip(rep, acc, sc, cfg):
                 rep.violation('read-raises:dask:' + type(e).__name__, f'read_parquet_dask raised {e!r}'[:300], m)
                 continue
             flush_read_log(acc, proj, m)
-            if type(r).__name__ != 'DaskGeoDataFrame':
+            from spatialpandas.dask import DaskGeoDataFrame
+            if not isinstance(r, DaskGeoDataFrame):
                 rep.violation('result-type:dask', f'result is {type(r).__name__}', m)
             if r.npartitions != len(parts):
                 rep.violation('npartitions:dask', f'{r.npartitions} partitions read, {len(parts)} written', m)
@@ -431,7 +457,7 @@ def dtype_name_check(rep, strings):
             continue  # a numpy / pandas dtype of its own ('int64'): not this library's name space
         low = s.lower()
         if dt is not None:
-            k = KIND_ORDER.index(type(dt)._geometry_name)
+            k = KIND_ORDER.index(U.kind_of_dtype(dt))
             name = KIND_ORDER[k]
             inner = low[len(name) + 1:].rstrip('\n')[:-1] if low != name else 'float64'
             try:
@@ -538,16 +564,21 @@ def _cfg_from_json(cfg):
 
 
 def finish(rep, acc):
-    bad = C.coq_mismatches(PC_IMPORTS, RC_FN, RC_CASE, RC_RES, *acc.rc[:2])
-    for i in bad[:3]:
-        rep.violation('read-columns-differ',
-                      'the columns read_parquet hands to pyarrow differ from Model/ParquetCols.v read_columns',
-                      {**acc.rc[2][i], 'model': C.coq_eval(PC_IMPORTS, f'({RC_FN}) {C.coq(acc.rc[0][i])}')})
-    bad = C.coq_mismatches(PC_IMPORTS, CN_FN, CN_CASE, CN_RES, *acc.cn[:2])
-    for i in bad[:3]:
-        rep.violation('cols-no-index-differ',
-                      'the columns read_parquet_dask hands to Dask for the meta frame differ from Model/ParquetCols.v',
-                      {**acc.cn[2][i], 'model': C.coq_eval(PC_IMPORTS, f'({CN_FN}) {C.coq(acc.cn[0][i])}')})
+    # optional extras on internals: counted, never a violation by themselves (prepending or appending
+    # the index columns, or letting pyarrow restore them, is the implementation's choice; what the
+    # property says -- requested columns in order, index restored -- is checked on the result frames)
+    for name, (fn, cty, rty), (cases, ress, metas) in (
+            ('read_columns', (RC_FN, RC_CASE, RC_RES), acc.rc),
+            ('cols_no_index', (CN_FN, CN_CASE, CN_RES), acc.cn)):
+        if not cases:
+            rep.count(f'internal-unavailable:{name}')
+            continue
+        bad = C.coq_mismatches(PC_IMPORTS, fn, cty, rty, cases, ress)
+        rep.extra[f'internal_{name}_cases'] = len(cases)
+        rep.extra[f'internal_{name}_differ_from_model'] = len(bad)
+        if bad:
+            rep.count(f'internal-differs:{name}', len(bad))
+            rep.extra[f'internal_{name}_example'] = C.jsonable({**metas[bad[0]], 'impl': ress[bad[0]]})
     for fn, ty, (cases, ress, metas) in ((LA_FN, 'listarr * listarr', acc.la), (FA_FN, 'fixarr * fixarr', acc.fa)):
         bad = C.coq_mismatches(AR_IMPORTS, fn, ty, 'bool', cases, ress, shard=25)
         for i in bad[:3]:
@@ -570,6 +601,7 @@ def run(rep):
                 'subtype spellings x case / bracket / suffix / newline mutations + random strings.  Every round '
                 'trip with a distinct (configuration, projection) is non-trivial')
     acc = Acc()
+    recording.rep = rep
     with dask.config.set(scheduler='synchronous'), U.Scratch() as sc, recording():
         for ent in corpus_entries():
             cfg = _cfg_from_json(ent['cfg'])
